@@ -754,7 +754,11 @@ def select_flow(P):
             snaps.setdefault(id(ex), {})['query'] = [snap(a) for a in pos]
             return T('new', ('EvalQuery', pos))
         return NotImplemented
-    paths = Engine(P, on_call=on_call).paths(fi, {'self': SELF, fi.params[1]: NODE})
+    def on_attr(base, attr, ex):
+        if attr == 'is_aggregate' and base in (T1, T2, G1, O1):
+            return False        # a query without aggregates: what is asked about the targets beyond their order does not fork the flow
+        return NotImplemented
+    paths = Engine(P, on_call=on_call, on_attr=on_attr).paths(fi, {'self': SELF, fi.params[1]: NODE})
     # snapshots are keyed by the Exec that produced them; recover through the events' owner: one Exec per path, in order
     return fi, paths, snaps, (T1, T2, G1, O1)
 
@@ -879,8 +883,57 @@ def helper_target_cases(P, res):
                     if having and p.value.args[2] != N + (0 if found is not None else 1):
                         ok = False
                         res.fail(construct, 'hidden:having-index', f'{label}: HAVING refers to target index {p.value.args[2]}', loc(fi))
+    # several ORDER BY keys: each key is resolved on its own - a name or position first, a new expression second, and the other way round
+    fi_o = _method(P, '_compile_order_by')
+    for first_kind in ('name-then-expression', 'expression-then-name', 'position-then-expression'):
+        tg, attrs = _targets(N, 0)
+        S1, S2 = Sym('SPEC1'), Sym('SPEC2')
+        NAMECOL = Sym('COLUMN_NAMED_b')
+        attrs[(NAMECOL, 'name')] = 'b'
+        ref = 2 if first_kind.startswith('position') else NAMECOL          # target 2 (position 2, or the name b): index 1
+        a_, b_ = (ref, EXPR_AST) if not first_kind.startswith('expression') else (EXPR_AST, ref)
+        attrs[(S1, 'column')], attrs[(S2, 'column')] = a_, b_
+        attrs[(S1, 'ordering')], attrs[(S2, 'ordering')] = Sym('ORDERING1'), Sym('ORDERING2')
+        env = {'self': SELF, fi_o.params[1]: SList([S1, S2]), fi_o.params[2]: SList(tg)}
+        for extra in fi_o.params[3:]:
+            env[extra] = T('attr', (Sym('STATEMENT'), f'option_{extra}'))
+
+        def on_isinstance_m(v, c, ex):
+            cn = gname(c).split('.')[-1]
+            if cn == 'int':
+                return type(v) is int
+            if cn == 'Column':
+                return v == NAMECOL
+            return False
+
+        def on_attr_m(base, attr, ex):
+            return attrs.get((base, attr), NotImplemented)
+
+        def on_call_m(fname, fval, recv, args, kwargs, ex, node):
+            f = str(fname).split('.')[-1]
+            if f == '_compile':
+                return CEXPR
+            if f == 'is_aggregate':
+                return False
+            if f == '_check_aggregates':
+                return None
+            if f == 'index' and isinstance(recv, SList) and args == (CEXPR,) and CEXPR not in recv.items:
+                raise Raise('ValueError', ())
+            if f == 'EvalTarget':
+                return T('new', ('EvalTarget', args))
+            return NotImplemented
+        want_idx = [1, N] if not first_kind.startswith('expression') else [N, 1]
+        for p in Engine(P, on_attr=on_attr_m, on_isinstance=on_isinstance_m, on_call=on_call_m).paths(fi_o, env):
+            spec = p.value.args[1] if p.outcome == 'return' and isinstance(p.value, T) and p.value.op == 'tuple' and len(p.value.args) == 2 else None
+            got = [x.args[0] if isinstance(x, T) and x.op == 'tuple' else x for x in spec.items] if isinstance(spec, SList) and not spec.opaque_tail else None
+            ords = [x.args[1] if isinstance(x, T) and x.op == 'tuple' else None for x in spec.items] if got is not None else None
+            if got != want_idx or ords != [Sym('ORDERING1'), Sym('ORDERING2')]:
+                ok = False
+                res.fail(f'{fi_o.fq}:new-targets', 'hidden:multi-key', f'ORDER BY with two keys ({first_kind}): the keys must resolve to the target indexes '
+                         f'{want_idx} with their own directions, each key on its own; got {got} with {[show(o) for o in (ords or [])]} '
+                         f'({p.outcome})', loc(fi_o))
     if ok:
-        res.ok({'sites': ['_compile_group_by', '_compile_order_by'], 'helper_targets': 'invisible (name None), appended, referred to by index', 'cases': 6})
+        res.ok({'sites': ['_compile_group_by', '_compile_order_by'], 'helper_targets': 'invisible (name None), appended, referred to by index', 'cases': 9})
 
 
 # ----------------------------------------------------------------------
